@@ -117,8 +117,8 @@ class LibRef:
 
 
 class LibFn:
-    def __init__(self, name, impl):
-        self.name, self.impl = name, impl
+    def __init__(self, name, impl, bound=None):
+        self.name, self.impl, self.bound = name, impl, bound
 
     def __repr__(self):
         return f'<libfn {self.name}>'
@@ -684,7 +684,16 @@ class Interp:
         if c is not None and not is_entry and not force_inline and fi.key not in self.inline_only and not c.inline_at_calls:
             if fi.is_async:
                 return Coroutine(fi, self_val, ca.args, ca.kwargs, ca.starmaps, fi.qualname)
-            return c.apply_at_call(self, fi, self_val, ca)
+            cp = self.st.checkpoint()
+            try:
+                return c.apply_at_call(self, fi, self_val, ca)
+            except (KeyError, AttributeError, IndexError, TypeError, AssertionError) as e:
+                # the contract no longer fits the callee (parameters renamed, representation changed): the callee's own
+                # verification reports that as undecided; here the real body is executed instead, which is always sound
+                self.st.restore(cp)
+                self.st.assumptions_used.add(f'contract of {fi.qualname} did not fit a call any more '
+                                             f'({type(e).__name__}: {e}); its body was inlined there')
+                return self.inline_function(fi, self_val, ca)
         if fi.is_async and not is_entry and not force_inline:
             return Coroutine(fi, self_val, ca.args, ca.kwargs, ca.starmaps, fi.qualname)
         return self.inline_function(fi, self_val, ca)
@@ -1713,9 +1722,11 @@ class Interp:
         # the solver must be restored between sub-paths: use push/pop
         while work:
             script = work.pop()
-            st.solver.push()
+            st.pc = list(saved[4])
             if assuming is not None and not isinstance(assuming, bool):
-                st.solver.add(assuming)
+                st.push_scope(assuming)
+            else:
+                st.push_scope()
             st.script, st.pos, st.taken, st.pending = script, 0, [], []
             st.pc = list(base_pc)
             st.heap = {k: dict(v) for k, v in heap_before.items()}
@@ -1740,7 +1751,7 @@ class Interp:
                 pass
             finally:
                 del st.effects[n_eff:]
-                st.solver.pop()
+                st.pop_scope()
                 counter_max = max(counter_max, st.counter)
             work.extend(st.pending)
         st.counter = counter_max
